@@ -31,6 +31,8 @@ fn main() {
         "wire" => wire::run(&cli),
         "net" => netfuzz::run(&cli),
         "fprobe" => folder::probe(&cli),
+        "fprobe2" => folder::probe2(&cli),
+        "amerge" => folder::run_account_merge(&cli),
         "sched" => sync::run_sched(&cli),
         d => {
             eprintln!("unknown domain {d}");
